@@ -85,6 +85,7 @@ func c07URIs(thorough bool) []string {
 }
 
 func c07Run(c *fw.Ctx) {
+	c.Retries = 2 // socket-based harness: tolerate a transient glitch while replaying a prefix
 	vtime.SetManual(harness.T0)
 	defer vtime.SetReal()
 	envs := &authEnvCache{}
